@@ -213,7 +213,7 @@ WF gen_wellformed(Rng& g, int max_headers)
 		std::vector<std::string> canon;
 		int const n = g.choose(6);
 		bool const abs_uri = g.coin(1, 12); // "http://host/..." without the leading slash is just a path for this parser
-		if (abs_uri) { canon.push_back("http:"); canon.push_back(""); canon.push_back(rnd_str(g, ALPHA("abcdef.0123456789:"), 1, 12)); }
+		if (abs_uri) { canon.push_back("http:"); canon.push_back(""); canon.push_back("h" + rnd_str(g, ALPHA("abcdef.0123456789:"), 0, 11)); }
 		for (int i = 0; i < n; ++i) canon.push_back(g.coin(1, 25) ? std::string() : gen_segment(g));
 		if (canon.empty() || g.coin(1, 4)) canon.push_back(""); // trailing slash (or the root)
 		std::string path;
